@@ -9,7 +9,9 @@ mod shared;
 use robopoker::cards::isomorphism::Isomorphism;
 use robopoker::cards::street::Street;
 use robopoker::clustering::abstraction::Abstraction;
+use robopoker::clustering::histogram::Histogram;
 use robopoker::clustering::lookup::Lookup;
+use robopoker::clustering::transitions::Decomp;
 use robopoker::clustering::metric::Metric;
 use robopoker::mccfr::bucket::Bucket;
 use robopoker::mccfr::edge::Edge;
@@ -23,8 +25,14 @@ const HEX_LIMIT: usize = 700;
 const ROWS_LIMIT: usize = 8;
 
 /// the answer line: what the file is and what came back
-fn answer(file: &Option<(String, Vec<u8>)>, reloaded: &Option<Vec<Vec<u64>>>) -> String {
+fn answer(big: bool, file: &Option<(String, Vec<u8>)>, reloaded: &Option<Vec<Vec<u64>>>) -> String {
     let mut s = String::new();
+    if big {
+        return match file {
+            None => "panic".into(),
+            Some((_, bytes)) => format!("len={} fnv={:016x}", bytes.len(), fnv(bytes)),
+        };
+    }
     match file {
         None => return "panic".into(),
         Some((_, bytes)) => {
@@ -91,6 +99,12 @@ fn expected_encoding(decl: &(Vec<String>, Vec<String>, Vec<(String, String)>), r
     }
     out.extend(0xFFFFu16.to_be_bytes());
     Some(out)
+}
+
+/// the file part of the oracle alone (transitions)
+fn file_oracle(run: &mut Run, op: &str, decl: &(Vec<String>, Vec<String>, Vec<(String, String)>), roles: &[&str], orig: &[Vec<u64>], bytes: &[u8]) {
+    // reload part is skipped by handing in the original rows as "reloaded"
+    oracle(run, "", op, decl, roles, orig, bytes, &Some(orig.to_vec()), None);
 }
 
 /// the search oracle on one saved file. `roles` names the components of `orig` rows.
@@ -224,8 +238,27 @@ struct Ctx {
     /// sequence mode: the scratch directory is NOT emptied before a save, so save() writes over
     /// whatever an earlier save left under the same name
     keep: bool,
+    /// the other scratch directory (sequences alternate between the two within this one process)
+    other: Scratch,
+    alternate: bool,
+    /// what was last saved where: (directory, file name) -> sorted rows
+    memory: BTreeMap<(String, String), Vec<Vec<u64>>>,
+    /// large tables: the model is asked for the file only (`saveb`), the reload is checked by the oracle
+    big: bool,
 }
 impl Ctx {
+    fn here(&self) -> String {
+        self.scr.dir.to_string_lossy().into_owned()
+    }
+    fn remember(&mut self, name: &str, rows: &[Vec<u64>]) {
+        if self.keep {
+            let k = (self.here(), name.to_string());
+            self.memory.insert(k, sorted(rows.to_vec()));
+        }
+    }
+    fn verb(&self) -> &'static str {
+        if self.big { "saveb" } else { "save" }
+    }
     fn before_save(&self) -> Vec<(String, Vec<u8>)> {
         if self.keep {
             self.scr.files()
@@ -262,12 +295,12 @@ fn case_profile(c: &mut Ctx, rows: &[(Bucket, Edge, u32, u32)], decl: &(Vec<Stri
     c.run.evaluations += 1;
     let saved = catch(std::panic::AssertUnwindSafe(|| p.save()));
     let files = c.scr.files();
-    let op = format!("save blueprint {} {}", orig.len(), flat(&orig));
+    let op = format!("{} blueprint {} {}", c.verb(), orig.len(), flat(&orig));
     let file = if saved.is_some() { pick(&files, c.keep, Some("blueprint".into())).filter(|f| f.0 == "blueprint") } else { None };
     over_count(c, "blueprint", &before, &file);
     let loaded = if file.is_some() { catch(|| profile_load()) } else { None };
     let reloaded = loaded.as_ref().map(|l| profile_rows(l));
-    c.run.line(&op, &answer(&file, &reloaded));
+    c.run.line(&op, &answer(c.big, &file, &reloaded));
     c.run.count(&format!("blueprint {}", size_class(orig.len())));
     for r in &typed {
         let k = match r.1 {
@@ -290,8 +323,9 @@ fn case_profile(c: &mut Ctx, rows: &[(Bucket, Edge, u32, u32)], decl: &(Vec<Stri
         c.run.distinct(&("blueprint", &orig));
     }
     match &file {
-        None => c.run.fail("save-fails", &op[..op.len().min(300)], "file pgcopy/blueprint", &format!("panic={} files={:?}", saved.is_none(), files.iter().map(|f| &f.0).collect::<Vec<_>>())),
+        None => c.run.fail(if saved.is_some() { "saved-file-not-under-current-directory" } else { "save-fails" }, &op[..op.len().min(300)], "file pgcopy/blueprint under the current working directory", &format!("panic={} files={:?}", saved.is_none(), files.iter().map(|f| &f.0).collect::<Vec<_>>())),
         Some((_, bytes)) => {
+            c.remember("blueprint", &orig);
             let teq = loaded.as_ref().map(|l| profile_typed(l) == typed);
             oracle(&mut c.run, "blueprint", &op, decl, &ROLES, &orig, bytes, &reloaded, teq);
         }
@@ -307,7 +341,7 @@ fn case_metric(c: &mut Ctx, rows: &[(u64, u32)], decl: &(Vec<String>, Vec<String
     c.run.evaluations += 1;
     let saved = catch(std::panic::AssertUnwindSafe(|| m.save()));
     let files = c.scr.files();
-    let op = format!("save metric {} {}", orig.len(), flat(&orig));
+    let op = format!("{} metric {} {}", c.verb(), orig.len(), flat(&orig));
     let picked = if saved.is_some() { pick(&files, c.keep, Some(metric_expected_name(orig.len()))) } else { None };
     let street = picked.as_ref().and_then(|f| f.0.strip_prefix("metric.")).and_then(street_of_suffix);
     let file = if street.is_some() { picked } else { None };
@@ -322,7 +356,7 @@ fn case_metric(c: &mut Ctx, rows: &[(u64, u32)], decl: &(Vec<String>, Vec<String
         _ => None,
     };
     let reloaded = loaded.as_ref().map(|l| metric_rows(l));
-    c.run.line(&op, &answer(&file, &reloaded));
+    c.run.line(&op, &answer(c.big, &file, &reloaded));
     c.run.count(&format!("metric {}", size_class(orig.len())));
     if let Some(s) = street {
         c.run.count(&format!("metric file=metric.{s}"));
@@ -331,8 +365,10 @@ fn case_metric(c: &mut Ctx, rows: &[(u64, u32)], decl: &(Vec<String>, Vec<String
         c.run.distinct(&("metric", &orig));
     }
     match &file {
-        None => c.run.fail("save-fails", &op[..op.len().min(300)], "one file pgcopy/metric.<street>", &format!("panic={} files={:?}", saved.is_none(), files.iter().map(|f| &f.0).collect::<Vec<_>>())),
+        None => c.run.fail(if saved.is_some() { "saved-file-not-under-current-directory" } else { "save-fails" }, &op[..op.len().min(300)], "one file pgcopy/metric.<street> under the current working directory", &format!("panic={} files={:?}", saved.is_none(), files.iter().map(|f| &f.0).collect::<Vec<_>>())),
         Some((_, bytes)) => {
+            let nm = file.as_ref().map(|f| f.0.clone()).unwrap_or_default();
+            c.remember(&nm, &orig);
             let teq = loaded.as_ref().map(|l| metric_typed(l) == typed);
             oracle(&mut c.run, "metric", &op, decl, &ROLES, &orig, bytes, &reloaded, teq);
         }
@@ -347,7 +383,7 @@ fn case_lookup(c: &mut Ctx, map: &BTreeMap<Isomorphism, Abstraction>, decl: &(Ve
     c.run.evaluations += 1;
     let saved = catch(std::panic::AssertUnwindSafe(|| l.save()));
     let files = c.scr.files();
-    let op = format!("save lookup {} {}", orig.len(), flat(&orig));
+    let op = format!("{} lookup {} {}", c.verb(), orig.len(), flat(&orig));
     let expected = map.keys().next().map(|k| format!("isomorphism.{}", k.0.street()));
     let picked = if saved.is_some() { pick(&files, c.keep, expected) } else { None };
     let street = picked.as_ref().and_then(|f| f.0.strip_prefix("isomorphism.")).and_then(street_of_suffix);
@@ -358,7 +394,7 @@ fn case_lookup(c: &mut Ctx, map: &BTreeMap<Isomorphism, Abstraction>, decl: &(Ve
         _ => None,
     };
     let reloaded = loaded.as_ref().map(|l| lookup_rows(l));
-    c.run.line(&op, &answer(&file, &reloaded));
+    c.run.line(&op, &answer(c.big, &file, &reloaded));
     c.run.count(&format!("lookup {}", size_class(orig.len())));
     if let Some(s) = street {
         c.run.count(&format!("lookup file=isomorphism.{s}"));
@@ -383,13 +419,84 @@ fn case_lookup(c: &mut Ctx, map: &BTreeMap<Isomorphism, Abstraction>, decl: &(Ve
                     c.run.fail("save-fails-but-writes", &op, "directory unchanged", &format!("{:?}", files.iter().map(|f| &f.0).collect::<Vec<_>>()));
                 }
             } else {
-                c.run.fail("save-fails", &op[..op.len().min(300)], "one file pgcopy/isomorphism.<street>", &format!("panic={} files={:?}", saved.is_none(), files.iter().map(|f| &f.0).collect::<Vec<_>>()));
+                c.run.fail(if saved.is_some() { "saved-file-not-under-current-directory" } else { "save-fails" }, &op[..op.len().min(300)], "one file pgcopy/isomorphism.<street> under the current working directory", &format!("panic={} files={:?}", saved.is_none(), files.iter().map(|f| &f.0).collect::<Vec<_>>()));
             }
         }
         Some((_, bytes)) => {
+            let nm = file.as_ref().map(|f| f.0.clone()).unwrap_or_default();
+            c.remember(&nm, &orig);
             let teq = loaded.as_ref().map(|l| l == map);
             oracle(&mut c.run, "lookup", &op, decl, &ROLES, &orig, bytes, &reloaded, teq);
         }
+    }
+}
+
+/// transitions: no read accessor, so only the file is checked (bytes vs model, exact encoding)
+fn case_decomp_file(c: &mut Ctx, map: BTreeMap<Abstraction, Histogram>, decl: &(Vec<String>, Vec<String>, Vec<(String, String)>)) {
+    const ROLES: [&str; 3] = ["prev", "next", "dx"];
+    let orig = decomp_rows(&map);
+    let expected = format!("transitions.{}", map.keys().next().map(|k| k.street()).unwrap_or(Street::Rive));
+    let d = Decomp::from(map);
+    let before = c.before_save();
+    c.run.evaluations += 1;
+    let saved = catch(std::panic::AssertUnwindSafe(|| d.save()));
+    let files = c.scr.files();
+    let op = format!("saveb transitions {} {}", orig.len(), flat(&orig));
+    let file = if saved.is_some() { pick(&files, c.keep, Some(expected.clone())).filter(|f| f.0 == expected) } else { None };
+    over_count(c, "transitions", &before, &file);
+    c.run.line(&op, &answer(true, &file, &None));
+    c.run.count(&format!("transitions {}", size_class(orig.len())));
+    if !orig.is_empty() {
+        c.run.distinct(&("transitions", &orig));
+    }
+    match &file {
+        None => c.run.fail(if saved.is_some() { "saved-file-not-under-current-directory" } else { "save-fails" }, &op[..op.len().min(300)], &format!("pgcopy/{expected} under the current working directory"), &format!("panic={} files={:?}", saved.is_none(), files.iter().map(|f| &f.0).collect::<Vec<_>>())),
+        Some((_, bytes)) => file_oracle(&mut c.run, &op, decl, &ROLES, &orig, bytes),
+    }
+}
+
+/// entering a directory again: everything saved there earlier must still load to what was saved
+fn revisit(c: &mut Ctx) {
+    let here = c.here();
+    let entries: Vec<(String, Vec<Vec<u64>>)> = c.memory.iter().filter(|(k, _)| k.0 == here).map(|(k, v)| (k.1.clone(), v.clone())).collect();
+    for (name, want) in entries {
+        c.run.spec_checked += 1;
+        let got: Option<Vec<Vec<u64>>> = if name == "blueprint" {
+            catch(|| profile_rows(&profile_load()))
+        } else if let Some(s) = name.strip_prefix("metric.").and_then(street_of_suffix) {
+            catch(move || metric_rows(&metric_load(s)))
+        } else if let Some(s) = name.strip_prefix("isomorphism.").and_then(street_of_suffix) {
+            catch(move || lookup_rows(&BTreeMap::from(lookup_load(s))))
+        } else {
+            continue;
+        };
+        c.run.count("sequence: reload after working in the other directory");
+        match got {
+            None => c.run.fail("load-after-directory-change-differs", &format!("{here}/pgcopy/{name}"), &format!("{} rows saved here earlier", want.len()), "panic"),
+            Some(rows) => {
+                let rows = sorted(rows);
+                if rows != want {
+                    c.run.fail("load-after-directory-change-differs", &format!("{here}/pgcopy/{name}"), &format!("{} rows saved here earlier", want.len()), &format!("{} rows, different content", rows.len()));
+                }
+            }
+        }
+    }
+}
+
+/// one step of a sequence: (switch directory,) run the case, the other directory must be untouched
+fn step(c: &mut Ctx, f: impl FnOnce(&mut Ctx)) {
+    if c.alternate {
+        std::mem::swap(&mut c.scr, &mut c.other);
+        c.scr.enter();
+        revisit(c);
+    }
+    let before = c.other.files();
+    f(c);
+    c.run.spec_checked += 1;
+    let after = c.other.files();
+    if after != before {
+        let names: Vec<String> = after.iter().filter(|f| !before.contains(f)).map(|f| f.0.clone()).collect();
+        c.run.fail("save-touches-other-directory", &format!("cwd {} ; other {}", c.here(), c.other.dir.to_string_lossy()), "files of the other directory unchanged", &format!("changed or new there: {:?}", names));
     }
 }
 
@@ -404,13 +511,14 @@ fn main() {
     let run = Run::new(&out);
     quiet_panics();
     let scr = Scratch::new(&out);
-    let mut c = Ctx { run, scr, keep: false };
+    let other = Scratch::open(&out, "scratch-b");
+    let mut c = Ctx { run, scr, keep: false, other, alternate: false, memory: BTreeMap::new(), big: false };
     let deep = a.thorough();
     let nrand = if deep { 20000 } else { 1500 };
     let big = if deep { 40000 } else { 4000 };
     let nseq = if deep { 60 } else { 8 };
     c.run.rule = format!(
-        "real save()+load() in a scratch directory for blueprint/metric/isomorphism tables: empty, one row, every edge kind x every street x every special float pattern (±0, ±inf, quiet/signalling NaN payloads, MAX, MIN_POSITIVE, subnormals, REGRET_MIN), {nrand} random tables of 0..60 rows per kind, tables of thousands of rows (blueprint {big} rows; metric 8128/10296/14196 rows = the flop/turn/preflop file names; lookup per street), keys with the sign bit set; the file bytes (hex up to {HEX_LIMIT} bytes, else length+FNV-1a) and the reloaded content are compared with the Lean model; plus {nseq} SEQUENCES of 12 saves per table kind into the same directory without clean-up (large, small, large, same size, empty, one row, ... so that a save lands over a longer / shorter / equal-length / identical file); after EVERY save the complete file (length and all bytes) must equal an independently written encoding of the table just saved and pass a strict COPY reader that requires end-of-file right after the trailer; non-trivial = at least one row; distinct by table content");
+        "real save()+load() in a scratch directory for blueprint/metric/isomorphism tables: empty, one row, every edge kind x every street x every special float pattern (±0, ±inf, quiet/signalling NaN payloads, MAX, MIN_POSITIVE, subnormals, REGRET_MIN), {nrand} random tables of 0..60 rows per kind, tables of thousands of rows (blueprint {big} rows; metric 8128/10296/14196 rows = the flop/turn/preflop file names; lookup per street), keys with the sign bit set; the file bytes (hex up to {HEX_LIMIT} bytes, else length+FNV-1a) and the reloaded content are compared with the Lean model; plus {nseq} SEQUENCES of 12 saves per table kind (transitions too, file only) without clean-up, half of them into one directory and half alternating between TWO working directories inside the same process (the file must appear under the current directory, the other directory must stay untouched, and earlier saves must still load correctly on return) (large, small, large, same size, empty, one row, ... so that a save lands over a longer / shorter / equal-length / identical file); after EVERY save the complete file (length and all bytes) must equal an independently written encoding of the table just saved and pass a strict COPY reader that requires end-of-file right after the trailer; plus large tables (lookup to 322,638 rows = 8 MiB; metric, blueprint, transitions) sized so that a row's field count or the trailer straddles / follows a multiple of 8 KiB and (lookup; all kinds in the thorough tier) 1 MiB, compared by length + checksum; non-trivial = at least one row; distinct by table content");
 
     let dp = declared::<Profile>();
     let dm = declared::<Metric>();
@@ -518,8 +626,12 @@ fn main() {
         }
         case_lookup(&mut c, &m, &dl);
     }
-    // ---------------- sequences of saves into the SAME directory (no clean-up in between): every save
-    // must leave exactly the encoding of the table just saved, whatever was there before
+    // ---------------- sequences of saves (no clean-up in between), alternating between TWO working
+    // directories inside this one process: every save must leave, under the CURRENT directory,
+    // exactly the encoding of the table just saved, whatever was there before; the other directory
+    // is not touched; and on coming back everything saved earlier still loads to what was saved
+    let dt = declared::<Decomp>();
+    declared_consistent(&mut c.run, "transitions", &dt, &["prev", "next", "dx"]);
     c.scr.clean();
     c.keep = true;
     // sizes: large, small, large again, same size/different content, empty, one row, ...
@@ -528,25 +640,31 @@ fn main() {
         let s = 1 + rng.below(6) as usize;
         vec![l, s, l + 7, l + 7, 0, 1, s, s, l, 0, 0, 2]
     };
-    for _ in 0..nseq {
+    for q in 0..nseq {
         c.scr.clean();
-        for n in sizes(&mut rng) {
+        c.other.clean();
+        c.memory.clear();
+        // even sequences: A,A,A,...; odd sequences: A,B,A,B,... (both directories see large->small etc.
+        // because each size appears twice in a row when doubled)
+        c.alternate = q % 2 == 1;
+        let dbl = |v: Vec<usize>, alt: bool| -> Vec<usize> { if alt { v.into_iter().flat_map(|n| [n, n]).collect() } else { v } };
+        for n in dbl(sizes(&mut rng), c.alternate) {
             let mut rows = vec![];
             while rows.len() < n {
                 rows.push((any_bucket(&mut rng), any_edge(&mut rng), any_f32(&mut rng), any_f32(&mut rng)));
             }
-            case_profile(&mut c, &rows, &dp);
+            step(&mut c, |c| case_profile(c, &rows, &dp));
         }
-        for n in sizes(&mut rng) {
+        for n in dbl(sizes(&mut rng), c.alternate) {
             let mut m = BTreeMap::new();
             while m.len() < n {
                 m.insert(rng.next(), any_f32(&mut rng));
             }
             let rows: Vec<_> = m.into_iter().collect();
-            case_metric(&mut c, &rows, &dm);
+            step(&mut c, |c| case_metric(c, &rows, &dm));
         }
         let s = STREETS[rng.below(4) as usize];
-        for n in sizes(&mut rng) {
+        for n in dbl(sizes(&mut rng), c.alternate) {
             let mut m = BTreeMap::new();
             let n = if s == Street::Pref { n.min(100) } else { n };
             let mut tries = 0;
@@ -554,22 +672,87 @@ fn main() {
                 m.insert(any_isomorphism(&mut rng, s), any_abstraction(&mut rng, Some(s)));
                 tries += 1;
             }
-            case_lookup(&mut c, &m, &dl); // n = 0: save panics and must leave the directory alone
+            step(&mut c, |c| case_lookup(c, &m, &dl)); // n = 0: save panics and must leave the directory alone
+        }
+        let s = [Street::Pref, Street::Flop, Street::Turn][rng.below(3) as usize];
+        for n in dbl(sizes(&mut rng), c.alternate) {
+            let m = if n == 0 { BTreeMap::new() } else { any_decomp(&mut rng, s, n, 64) };
+            step(&mut c, |c| case_decomp_file(c, m, &dt));
         }
     }
     // the flop/turn/preflop metric names too: a small metric (-> metric.river) never touches them,
     // and re-saving a special count over its own file
     {
+        c.alternate = false;
         c.scr.clean();
+        c.other.clean();
+        c.memory.clear();
         for n in [8128usize, 3, 8128, 0, 8128] {
             let mut m = BTreeMap::new();
             while m.len() < n {
                 m.insert(rng.next(), any_f32(&mut rng));
             }
             let rows: Vec<_> = m.into_iter().collect();
-            case_metric(&mut c, &rows, &dm);
+            step(&mut c, |c| case_metric(c, &rows, &dm));
         }
     }
+    c.keep = false;
+    c.alternate = false;
+    c.memory.clear();
+    c.scr.clean();
+    c.other.clean();
+
+    // ---------------- large tables whose row starts / trailer fall on I/O buffer boundaries: a row's
+    // 2-byte field count begins at byte 19 + rowsize*r; with r rows the count of row r' (or the
+    // trailer) straddles (residue -1) or follows (residue +1) a multiple of 8 KiB (BufReader's
+    // default) or 1 MiB for some r' <= r.  Files are compared by length + checksum (`saveb`), the
+    // reload by the oracle.
+    c.big = true;
+    let mib = 1usize << 20;
+    let first = |rowsize: usize, modulus: usize, res: i64| -> usize {
+        (1..).find(|r| ((19 + rowsize * r) as i64 - res).rem_euclid(modulus as i64) == 0).unwrap()
+    };
+    let mut big_lookup = vec![first(26, 8192, -1) + 3, first(26, mib, -1) + 1];
+    let mut big_metric = vec![first(22, 8192, -1) + 3];
+    let mut big_profile = vec![first(66, 8192, 1) + 3];
+    let mut big_decomp = vec![first(34, 8192, 1) + 3];
+    if deep {
+        big_lookup.extend([first(26, mib, 1) - 1, first(26, mib, 1), first(26, mib, 1) + 2, first(26, mib, -1), 2 * first(26, mib, -1) + 40000]);
+        big_metric.extend([first(22, mib, 1), first(22, mib, -1), first(22, mib, -1) + 1]);
+        big_profile.extend([first(66, mib, 1), first(66, mib, -1), first(66, mib, -1) + 1]);
+        big_decomp.extend([first(34, mib, 1), first(34, mib, -1) + 5]);
+    }
+    for n in big_lookup {
+        let s = if n > 1_000_000 { Street::Rive } else { STREETS[2 + rng.below(2) as usize] };
+        let mut m = BTreeMap::new();
+        while m.len() < n {
+            m.insert(any_isomorphism(&mut rng, s), any_abstraction(&mut rng, Some(s)));
+        }
+        case_lookup(&mut c, &m, &dl);
+    }
+    for n in big_metric {
+        let mut m = BTreeMap::new();
+        while m.len() < n {
+            m.insert(rng.next(), any_f32(&mut rng));
+        }
+        let rows: Vec<_> = m.into_iter().collect();
+        case_metric(&mut c, &rows, &dm);
+    }
+    for n in big_profile {
+        let mut rows = Vec::with_capacity(n + 8);
+        while rows.len() < n {
+            let b = any_bucket(&mut rng);
+            for e in [Edge::Fold, Edge::Call, Edge::Shove] {
+                rows.push((b, e, any_f32(&mut rng), any_f32(&mut rng)));
+            }
+        }
+        case_profile(&mut c, &rows, &dp);
+    }
+    for n in big_decomp {
+        let m = any_decomp(&mut rng, Street::Flop, n, 4096);
+        case_decomp_file(&mut c, m, &dt);
+    }
+    c.big = false;
     c.keep = false;
     c.run.exhaustive = false;
     c.scr.clean();
